@@ -14,6 +14,7 @@ type TypeFixture struct {
 	T          string // class that carries the typed members
 	Fn         string // function / method name stem
 	Short      bool   // one-letter class names
+	Hier       *hierFixture
 }
 
 // newShortTypeFixture uses one-letter class names (seeded choice of letters).
@@ -49,6 +50,9 @@ func (tf *TypeFixture) render(t declType) string {
 			return tf.C
 		case "I":
 			return tf.I
+		}
+		if strings.HasPrefix(a, "@") {
+			return tf.Hier.names[a[1:]]
 		}
 		return a
 	}
@@ -88,6 +92,7 @@ type valKind struct {
 	expr  func(tf *TypeFixture) string
 	repr  func(tf *TypeFixture) string
 	setup func(tf *TypeFixture) string // statements that build $val (objects)
+	isa   map[string]bool              // hierarchy fixture: the "@Name" atoms the value is an instance of
 }
 
 func lit(s string) func(*TypeFixture) string { return func(*TypeFixture) string { return s } }
@@ -131,6 +136,11 @@ func valKinds() []valKind {
 }
 
 func accepts(t declType, v valKind) bool {
+	for _, a := range t.atoms {
+		if v.isa != nil && v.isa[a] {
+			return true
+		}
+	}
 	if v.atom == "" {
 		return false
 	}
@@ -159,12 +169,19 @@ func (tf *TypeFixture) defaultOf(t declType) string {
 		case "C", "I":
 			return "new " + tf.K + "()"
 		}
+		if strings.HasPrefix(a, "@") {
+			return "new " + tf.Hier.names[tf.Hier.witness(a[1:])] + "()"
+		}
 	}
 	return "41"
 }
 
 // initial valid value of a typed property (differs from every tested value)
 func (tf *TypeFixture) initOf(t declType) (setup, repr string) {
+	if a := t.atoms[0]; strings.HasPrefix(a, "@") {
+		n := tf.Hier.names[tf.Hier.witness(a[1:])]
+		return "$init = new " + n + "(); $init->tag = \"i\";\n", "obj:" + n + ":i"
+	}
 	switch t.atoms[0] {
 	case "int":
 		return "$init = 41;\n", "int:41"
@@ -209,6 +226,9 @@ func (tf *TypeFixture) prelude() string {
 	fmt.Fprintf(&b, "class %s implements %s { public $tag = \"init\"; public function ifm() { return 1; } }\n", tf.C, tf.I)
 	fmt.Fprintf(&b, "class %s extends %s { }\n", tf.K, tf.C)
 	fmt.Fprintf(&b, "class %s { public $tag = \"init\"; }\n", tf.U)
+	if tf.Hier != nil {
+		b.WriteString(tf.Hier.decls())
+	}
 	b.WriteString(reprFunc)
 	return b.String()
 }
